@@ -25,7 +25,8 @@ PTH_HOOK = "c15hook"  # a module named by an `import` line of a .pth file in the
 # ... or is named like a source-less module of the standard library that this process never imports (a project that
 # vendors its own build of an accelerator): the name is in sys.stdlib_module_names, the code is the project's
 PYC_TOP_NAMES = [PYC_TOP, PYC_TOP, "_sqlite3", "_tkinter", "audioop", "_dbm"]
-WORLD_TOPS = {PK, EXT, PRIV, EXT2, PYC_TOP, PTH_HOOK, "c15missingdep"}
+LAZY = "c15lazy"  # a package outside the search path that this process has imported *lazily* (importlib.util.LazyLoader)
+WORLD_TOPS = {PK, EXT, PRIV, EXT2, PYC_TOP, PTH_HOOK, LAZY, "c15missingdep"}
 FAULTS = ["exception", "importerror", "systemexit", "sysexit", "kbi", "missingdep", "recursion", "baseexc"]
 COMPILED_SUFFIXES = (".so", ".pyd", ".pyc")
 
@@ -104,6 +105,12 @@ def generate(rng, opts):
     pyc_name = rng.choice(PYC_TOP_NAMES)
     # site-packages style: a .pth file whose `import x` line CPython's site module would execute at start-up
     cfg["pth_import"] = rng.random() < 0.2
+    # the embedding process holds a lazily imported package that is not on the search path: its module object exists in
+    # sys.modules, its body has not run yet (and touching the wrong attribute runs it)
+    cfg["lazy_pkg"] = rng.random() < 0.15
+    # PEP 562: the package imports its sub-modules on demand (`__getattr__` / `__dir__`, scipy / lazy_loader style), so
+    # their bodies first run while the inspector looks at the members of the package, not when the package is imported
+    cfg["lazy_getattr"] = rng.random() < 0.2
     std = None
     if rng.random() < 0.25:
         # a sub-package named like a standard-library package, holding compiled modules named like that package's own
@@ -121,6 +128,8 @@ def generate(rng, opts):
             modules[n]["imports"].append(rng.choice([f"star:{EXT2}", f"from:{EXT2}"]))
     if cfg["pyc_top"] and rng.random() < 0.6:
         modules[rng.choice(names)]["imports"].append(f"from:{pyc_name}:fast")
+    if cfg["lazy_pkg"] and rng.random() < 0.6:
+        modules[rng.choice(names)]["imports"].append(f"from:{LAZY}:lazy_f")
     n_faults = rng.choice([0, 0, 1, 1, 2])
     for victim in rng.sample(list(modules), min(n_faults, len(modules))):
         modules[victim]["fault"] = rng.choice(FAULTS)
@@ -140,7 +149,7 @@ def generate(rng, opts):
         op = {
             "api": rng.choice(["load", "load", "loader", "dump", "main", "check", "check_main"]),
             "base_ref": rng.choice([None, "v2"]),
-            "target": rng.choice([PK, PK, PK, "path", "c15nothere", EXT, f"{PK}.a"] + ([pyc_name, f"{pyc_name}.fast", f"{pyc_name}.fast"] if cfg["pyc_top"] else [])),
+            "target": rng.choice([PK, PK, PK, "path", "c15nothere", EXT, f"{PK}.a"] + ([pyc_name, f"{pyc_name}.fast", f"{pyc_name}.fast"] if cfg["pyc_top"] else []) + ([LAZY, LAZY, f"{LAZY}.sub"] if cfg["lazy_pkg"] else [])),
             "allow_inspection": inspect_mode != "static",
             "force_inspection": inspect_mode == "force",
             "resolve_aliases": rng.random() < 0.6,
@@ -154,7 +163,7 @@ def generate(rng, opts):
         }
         ops.append(op)
     # a long-lived process does not clean sys.modules between two loads
-    return {"world": {"modules": modules, "compiled": compiled, "stubs": stubs, "pkgutil_init": cfg["pkgutil_init"], "pyc_top": cfg["pyc_top"], "pyc_top_name": pyc_name, "pth_import": cfg["pth_import"]}, "ops": ops, "cfg": cfg, "keep_modules": rng.random() < 0.4,
+    return {"world": {"modules": modules, "compiled": compiled, "stubs": stubs, "pkgutil_init": cfg["pkgutil_init"], "pyc_top": cfg["pyc_top"], "pyc_top_name": pyc_name, "lazy_pkg": cfg["lazy_pkg"], "lazy_getattr": cfg["lazy_getattr"], "pth_import": cfg["pth_import"]}, "ops": ops, "cfg": cfg, "keep_modules": rng.random() < 0.4,
             # the user (or the tool embedding Griffe) already has the package directory on sys.path
             "sp_on_sys_path": rng.random() < 0.3}
 
@@ -208,6 +217,9 @@ def render_world(world):
         if m.get("all_call"):
             lines.append(f"__all__ = ['f', str(open('<ROOT>/sp0/sent/{n}.allcall', 'w').close() or 'K')]")
         lines += ["", "def f():", '    """doc"""', "    return 1", "", "class K:", "    x = 1", ""]
+        if world.get("lazy_getattr") and n == PK:
+            children = sorted(o[len(n) + 1 :] for o in mods if o.startswith(n + ".") and "." not in o[len(n) + 1 :])
+            lines += ["import importlib", f"_lazy = {children!r}", "def __dir__():", "    return _lazy + ['f', 'K']", "def __getattr__(name):", "    if name in _lazy:", "        return importlib.import_module(__name__ + '.' + name)", "    raise AttributeError(name)", ""]
         rel = "/".join(n.split(".")) + ("/__init__.py" if n in pkgs else ".py")
         if m.get("latin1"):
             files[rel] = ("# -*- coding: latin-1 -*-\n# caf\xe9\n" + "\n".join(lines) + "\n").replace("<ROOT>", "<ROOT>").encode("latin-1")
@@ -442,6 +454,22 @@ def execute(plan, ctx):
             py_compile.compile(src, cfile=os.path.join(sp, f"{pyc_name}.pyc"), doraise=True)
             os.remove(src)
         _audit["root"] = w.root
+        if world.get("lazy_pkg"):
+            import importlib.util
+
+            lazy_dir = os.path.join(w.root, "elsewhere", LAZY)
+            os.makedirs(lazy_dir)
+            body = "import os\nopen(os.path.join({!r}, {!r}), 'w').close()\n\ndef lazy_f():\n    return 1\n"
+            with open(os.path.join(lazy_dir, "__init__.py"), "w") as fh:
+                fh.write(body.format(sent_dir, LAZY) + "from . import sub\n")
+            with open(os.path.join(lazy_dir, "sub.py"), "w") as fh:
+                fh.write(body.format(sent_dir, LAZY + ".sub"))
+            spec = importlib.util.spec_from_file_location(LAZY, os.path.join(lazy_dir, "__init__.py"), submodule_search_locations=[lazy_dir])
+            spec.loader = importlib.util.LazyLoader(spec.loader)
+            lazy_module = importlib.util.module_from_spec(spec)
+            sys.modules[LAZY] = lazy_module
+            spec.loader.exec_module(lazy_module)  # lazy: nothing runs until an attribute that is not there yet is read
+            ctx.fault("lazily-imported-package-in-sys-modules")
         import tempfile
 
         old_tempdir = tempfile.tempdir
@@ -606,7 +634,7 @@ class _Prop:
         "forced; resolve_aliases x external x implicit; by name, by path, missing package). Static ops are checked "
         "with audit events, import seams, sentinels, sys.modules and the tree; every op is checked for sys.path "
         "identity+contents and cwd. Non-trivial = every run (each contains at least one judged op); distinct = "
-        "distinct (api/mode/outcome trace, world fault layout). Also drawn: sub-module names that collide with imported stdlib modules, chains of external packages, compiled modules in any package, `check` / `griffe check` operations over a Git repository built from the package (with and without base_ref), histories that keep sys.modules between operations. Round r: a sourceless top-level module named like a standard-library accelerator this process never imports (_sqlite3, _tkinter...), imported by package modules. Round j/k: latin-1 encoded sources with a coding cookie; loaders built with the opposite inspection settings and re-configured through their public attributes before the load."
+        "distinct (api/mode/outcome trace, world fault layout). Also drawn: sub-module names that collide with imported stdlib modules, chains of external packages, compiled modules in any package, `check` / `griffe check` operations over a Git repository built from the package (with and without base_ref), histories that keep sys.modules between operations. Round s: a lazily imported package (LazyLoader) in sys.modules outside the search path; PEP 562 lazy packages whose sub-modules first run during member inspection. Round r: a sourceless top-level module named like a standard-library accelerator this process never imports (_sqlite3, _tkinter...), imported by package modules. Round j/k: latin-1 encoded sources with a coding cookie; loaders built with the opposite inspection settings and re-configured through their public attributes before the load."
     )
     COMPONENTS = {
         "real": ["_griffe.loader", "_griffe.importer (sys_path, dynamic_import)", "_griffe.agents.inspector", "_griffe.finder", "_griffe.cli (dump, main)", "CPython import system executing the generated hostile modules"],
